@@ -49,7 +49,7 @@ SCALE = ['Covariance', 'RCA']
 def cases(tier, seed):
   out = []
   q = tier == 'quick'
-  rep = 3 if q else 40
+  rep = 3 if q else 400
 
   def add(name, rel, i, params=None):
     r = rng_for('c19', seed, name, rel, i)
